@@ -227,10 +227,11 @@ def run_case(case, acc):
         opspecs.FUNCS.setdefault('grp', lambda x: (x // 1000) % 10)
         spec = [['group_by', 'grp', [['time_split', a, i, c, inc, INNER, 'ts_int']]]]
         exp = None
-    sink, ctx, store = harness.run_api(spec, items, track_states=True)
-    acc.evals += 1
-    acc.events += len(items) + 1
-    acc.traces += 1
+    twice = len(items) <= 3
+    sink, ctx, store = harness.run_api(spec, items, track_states=True, twice=twice)
+    acc.evals += 2 if twice else 1
+    acc.events += (len(items) + 1) * (2 if twice else 1)
+    acc.traces += 2 if twice else 1
     m = [w for w in harness.model_all(spec, items) if w != []]
     if exp is not None and m != exp:
         raise AssertionError('refmodel disagrees with the session model: %r %r' % (m, exp))
@@ -238,6 +239,11 @@ def run_case(case, acc):
     sp = harness.status_problem(sink)
     if sp:
         out.append(viol(fam, sp, {'spec': spec, 'items': items, 'error': repr(sink.error)}))
+    if twice:
+        acc.count('second_subscriptions')
+        d = harness.second_problem(sink)
+        if d:
+            out.append(viol(fam, 'second-subscription-differs', dict(d, spec=spec, items=items)))
     got = [w for w in sink.items if w != []]
     kind = harness.diff_kind(exp, got)
     if kind:
